@@ -54,6 +54,7 @@ class EngineRestart(Target):
     file = 'python/experiment/runtime/engine.py'
     qualname = 'Engine.restart'
     max_paths = 200000
+    second_rate = 100            # thorough: every 100th z3 discharge is re-checked by cvc5
     trusted = ["restart hook returns a restartContext, bool, other value or raises (all enumerated)",
                "Engine.run() either starts the task or raises", "shutil.move succeeds or raises",
                "experiment.model.hooks.import_hooks_restart returns a module with Restart or raises ImportError/IOError/other",
